@@ -148,7 +148,8 @@ func oracle(s *mw.Sys) (string, string) {
 				fail("status:Get:wrong-header:"+ctx(m, x), "Get("+x+") returned a header with wrong id/type/size")
 			}
 			// ResolveECPart on an arbitrary address: a removal verdict must be one the rules allow
-			if (a.EC == mw.ClsRemoved || a.EC == mw.ClsExpired) && a.EC.St()&want == 0 {
+			// (EC parents are judged together with the resolved part further below)
+			if sp.Kind != mw.KVirtEC && (a.EC == mw.ClsRemoved || a.EC == mw.ClsExpired) && a.EC.St()&want == 0 {
 				fail(fmt.Sprintf("status:ResolveECPart:want=%s:got=%s:%s", want, a.EC, ctx(m, x)),
 					fmt.Sprintf("ResolveECPart(%s) reports %s, rules allow {%s}", x, a.EC, want))
 			}
@@ -346,10 +347,12 @@ func main() {
 	// reduced alphabet for the deeper run: the letters that change a status (locks incl. the second
 	// lock on R1, marks on objects and on a lock, tombstones, revivals, epoch ticks, the split chain,
 	// the EC and the two-level family, container removal) plus the scripted prefixes
-	status := append(mw.OpsByName(
-		"Put(R1)", "Put(L1)", "Put(L4)", "Put(T1)", "Put(C1)", "Put(C2)", "Put(T2)", "Put(E0)", "Put(D0)", "Epoch+1",
-		"MarkGarbage(R1)", "MarkGarbage(L1)", "MarkGarbage(P)", "MarkGarbage(E)", "MarkRedundant(R1)",
-		"Delete(T1)", "Delete(C2)", "Revive(R1)", "Revive(C2)", "Revive(P)", "InhumeContainer(cA)"), mw.MacroOps()...)
+	statusNames := []string{"Put(R1)", "Put(L1)", "Put(L4)", "Put(T1)", "Put(C2)", "Put(T2)", "Put(E0)", "Epoch+1",
+		"MarkGarbage(R1)", "MarkGarbage(L1)", "MarkGarbage(P)", "Revive(R1)", "Revive(C2)", "InhumeContainer(cA)"}
+	if r.Thorough() {
+		statusNames = append(statusNames, "Put(C1)", "Put(D0)", "MarkGarbage(E)", "MarkRedundant(R1)", "Delete(T1)", "Delete(C2)", "Revive(P)")
+	}
+	status := append(mw.OpsByName(statusNames...), mw.MacroOps()...)
 	fullDepth, statusDepth := 2, 3
 	if r.Thorough() {
 		fullDepth, statusDepth = 3, 4
